@@ -503,3 +503,40 @@ Proof.
   apply forallb_forall. intros c Hc. apply incl_inclb.
   apply (Hs _ Hin Hl _ Hvs). apply in_map_iff. now exists c.
 Qed.
+
+(* ---------- no or node has a duplicate child before the third traversal ---------- *)
+Definition or_nodup (g : sgraph) : Prop := forall x, sg_label g x = Some GOr -> NoDup (sg_out g x).
+
+Lemma or_nodup_rep {P : Z -> Prop} {st : bool} toks n n0 b : d4_conform toks n = true -> rep P st n0 toks b ->
+  or_nodup (ls_g (bs_ls b)).
+Proof.
+  intros Hconf HR x Hl.
+  destruct (rp_class _ _ _ _ _ HR x _ Hl) as [Hin|[[l E]|E]]; try discriminate.
+  destruct (idx_range toks n0 b HR x Hin) as [i [Hi Hx]].
+  destruct (cf_kind toks i Hi) as [kd Hkd]. pose proof Hkd as Hkd'. unfold kind in Hkd'.
+  destruct (Forall2_nth_error_l _ _ _ _ _ (rp_decl _ _ _ _ _ HR) Hkd') as [x' [Hx' Hlx]].
+  assert (x' = x) by congruence. subst x'.
+  assert (kd = KOr) by (destruct kd; cbn [tid_of_kind] in Hlx; congruence). subst kd.
+  pose proof (or_ok_nodup toks i (cf_or toks n Hconf i Hi Hkd)) as Hnd.
+  pose proof (rp_ndout _ _ _ _ _ HR (i - 1) x Hx) as H. replace (S (i - 1)) with i in H by lia.
+  exact (H Hnd).
+Qed.
+
+Lemma or_nodup_free {P : Z -> Prop} {st : bool} s root1 s1 : free_result s root1 s1 -> lprov s s1 [root1] ->
+  tables_ok P st s1 -> or_nodup (ls_g s) -> or_nodup (ls_g s1).
+Proof.
+  intros [[_ ->]|[Hd [Hl1 [He _]]]] Hprov Hok H0 x Hl; [now apply H0|].
+  destruct (Hprov x _ Hl) as [H|[[l E]|[[_ [f Hf]]|[E _]]]]; try discriminate.
+  - assert (Ha : sg_alive (ls_g s) x = true) by (unfold sg_alive; now rewrite H).
+    rewrite (ex_out _ _ _ He x Ha) by (intros []). now apply H0.
+  - destruct (proj2 Hok f x Hf) as [Hf1 [_ [n [p [Ho [Hn Hp]]]]]]. rewrite Ho.
+    constructor; [|constructor; [intros []|constructor]]. intros [E|[]]. subst p.
+    rewrite Hn in Hp. injection Hp as Hp. lia.
+Qed.
+
+Lemma or_nodup_shrink g g' : step_ok g g' -> or_nodup g -> or_nodup g'.
+Proof.
+  intros Hs H0 x Hl.
+  apply (sublist_NoDup _ (sg_out g x)); [exact (s2_sub _ _ (so_s2 _ _ Hs) x)|]. apply H0.
+  apply (shrink_label_back g g' x GOr (so_sh _ _ Hs) Hl). discriminate.
+Qed.
